@@ -34,13 +34,13 @@ package fox
 //@   loop 1: invariant @C01,C10 count: keyOK(segment) ==> (state == stateDefault ==> len(params) == cnt(segment, i)) && (state != stateDefault ==> len(params) + 1 == cnt(segment, i))
 //@   loop 1: invariant @C01,C10 entries: keyOK(segment) ==> forall k int :: {params[k]} 0 <= k && k < len(params) ==> (params[k].end == -1 ==> i >= len(segment) && k == len(params) - 1) && (params[k].end != -1 ==> 0 < params[k].end && params[k].end <= len(segment) && params[k].end <= i && cnt(segment, params[k].end) == k + 1)
 
-//@ func newNodeFromRef props C03,C05,C02
+//@ func newNodeFromRef props C03,C05,C02,C04
 //@   ensures result != nil && fresh(result) && same(result.key, key) && result.route == route && result.children == children && result.childKeys == childKeys && result.paramChildIndex == paramChildIndex && result.wildcardChildIndex == wildcardChildIndex
 //@   ensures @C01 params-ok: keyOK(key) ==> paramsOK(key, result.params)
 //@   loop 1: invariant -1 <= rangeindex && rangeindex < len(params) && (forall k int :: {params[k]} 0 <= k && k < len(params) ==> params[k].end == -1 || (0 < params[k].end && params[k].end < len(key)))
 
 //@ -- newNode sorts `children` in place: the caller must own that array (frame obligation at the call site)
-//@ func newNode props C03,C05,C02
+//@ func newNode props C03,C05,C02,C04
 //@   -- every child exists and has a non-empty key (its first byte becomes the edge label)
 //@   requires safety-children: forall i int :: {children[i]} 0 <= i && i < len(children) ==> children[i] != nil && len(children[i].key) > 0
 //@   modifies elems(children)
@@ -52,17 +52,17 @@ package fox
 //@   ensures @C01 params-ok: keyOK(key) ==> paramsOK(key, result.params)
 //@   loop 1: invariant @C01 -1 <= paramChildIndex && paramChildIndex < len(children) && -1 <= wildcardChildIndex && wildcardChildIndex < len(children) && 0 <= rangeindex + 1 && rangeindex < len(children)
 
-//@ func (*node).clone props C03,C05
+//@ func (*node).clone props C03,C05,C02,C04
 //@   requires n != nil
 //@   ensures result != nil && fresh(result) && same(result.key, n.key) && result.route == n.route && len(result.children) == len(n.children) && cap(result.children) == len(n.children) && (len(n.children) > 0 ==> fresh(result.children)) && result.childKeys == n.childKeys
 //@   ensures forall i int :: {result.children[i]} 0 <= i && i < len(n.children) ==> result.children[i] == n.children[i]
 
-//@ func (*node).getEdges props C03,C05
+//@ func (*node).getEdges props C03,C05,C02,C04
 //@   requires n != nil
 //@   ensures len(result) == len(n.children) && cap(result) == len(result) && (len(result) > 0 ==> fresh(result))
 //@   ensures forall i int :: {result[i]} 0 <= i && i < len(n.children) ==> result[i] == n.children[i]
 
-//@ func recreateParentEdge props C03,C05
+//@ func recreateParentEdge props C03,C05,C02,C04
 //@   requires safety-parent: parent != nil && len(parent.children) >= 1
 //@   -- the node to leave out is one of the parent's children (otherwise the copy overflows)
 //@   requires safety-child: exists k int :: 0 <= k && k < len(parent.children) && parent.children[k] == matched
@@ -81,7 +81,7 @@ package fox
 //@   ensures result != nil ==> exists i int :: 0 <= i && i < len(n.children) && result == n.children[i]
 
 //@ -- updateEdge overwrites one slot of n.children: n's children array must be owned by the writer
-//@ func (*node).updateEdge props C03,C05
+//@ func (*node).updateEdge props C03,C05,C02,C04
 //@   requires safety-nil: n != nil && node != nil
 //@   -- the internal-error panics are unreachable: n has an edge for the first byte of the new child's key
 //@   requires safety-found: len(node.key) > 0 && len(n.childKeys) == len(n.children) && (exists i int :: 0 <= i && i < len(n.childKeys) && n.childKeys[i] == node.key[0])
@@ -115,22 +115,22 @@ package fox
 //@   loop 1: invariant forall j int :: {r[j]} verb <= j && j <= rangeindex + verb ==> r[j].key != method
 //@   loop 1: decreases len(r) - verb - rangeindex
 
-//@ func (*tXn).addRoot props C03,C05,C02
+//@ func (*tXn).addRoot props C03,C05,C02,C04
 //@   requires t != nil
 //@   modifies t.root
 //@   ensures fresh(t.root) && len(t.root) == old(len(t.root)) + 1
-//@ func (*tXn).updateRoot props C03,C05,C02
+//@ func (*tXn).updateRoot props C03,C05,C02,C04
 //@   requires t != nil && n != nil
 //@   requires safety-roots: len(t.root) >= verb && (forall j int :: {t.root[j]} 0 <= j && j < len(t.root) ==> t.root[j] != nil)
 //@   modifies t.root
 //@   ensures t.root == old(t.root) || (fresh(t.root) && len(t.root) == old(len(t.root)))
-//@ func (*tXn).removeRoot props C03,C05,C02
+//@ func (*tXn).removeRoot props C03,C05,C02,C04
 //@   requires t != nil
 //@   requires safety-roots: len(t.root) >= verb && (forall j int :: {t.root[j]} 0 <= j && j < len(t.root) ==> t.root[j] != nil)
 //@   modifies t.root
 //@   ensures t.root == old(t.root) || fresh(t.root)
 
-//@ func (*tXn).copyOnWriteSearch props C03,C05,C02,C04 partial
+//@ func (*tXn).copyOnWriteSearch props C03,C05,C02,C04,C15 partial
 //@   requires t != nil && cacheOK(t)
 //@   requires safety-root: rootNode != nil
 //@   modifies t.writable, t.root, cachedIn
@@ -171,7 +171,7 @@ package fox
 //@   ensures result != nil
 //@ extern isRemovable
 
-//@ func (*tXn).insert props C03,C05,C02,C04,C01 partial
+//@ func (*tXn).insert props C03,C05,C02,C04,C01,C15,C10 partial
 //@   assert-at call newNodeFromRef#1 : same-edges: arg_children == result.matched.children && arg_childKeys == result.matched.childKeys && arg_paramChildIndex == result.matched.paramChildIndex && arg_wildcardChildIndex == result.matched.wildcardChildIndex && same(arg_key, result.matched.key) && arg_route == route
 //@   assert-at call newNodeFromRef#2 : same-edges: arg_children == result.matched.children && arg_childKeys == result.matched.childKeys && arg_paramChildIndex == result.matched.paramChildIndex && arg_wildcardChildIndex == result.matched.wildcardChildIndex && arg_route == result.matched.route
 //@   requires t != nil && route != nil && cacheOK(t)
@@ -180,7 +180,7 @@ package fox
 //@   ensures cache: cacheOK(t)
 //@   ensures size: (result == nil ==> t.size == old(t.size) + 1) && (result != nil ==> t.size == old(t.size))
 
-//@ func (*tXn).update props C03,C05,C02,C04,C01 partial
+//@ func (*tXn).update props C03,C05,C02,C04,C01,C15 partial
 //@   assert-at call newNodeFromRef#1 : same-edges: arg_children == result.matched.children && arg_childKeys == result.matched.childKeys && arg_paramChildIndex == result.matched.paramChildIndex && arg_wildcardChildIndex == result.matched.wildcardChildIndex && same(arg_key, result.matched.key) && arg_route == route
 //@   requires t != nil && route != nil && cacheOK(t)
 //@   modifies t.root, t.writable, cachedIn
@@ -188,7 +188,7 @@ package fox
 //@   ensures cache: cacheOK(t)
 //@   ensures size: t.size == old(t.size)
 
-//@ func (*tXn).remove props C03,C05,C02,C04,C01 partial
+//@ func (*tXn).remove props C03,C05,C02,C04,C01,C15 partial
 //@   assert-at call newNodeFromRef#1 : same-edges: arg_children == result.matched.children && arg_childKeys == result.matched.childKeys && arg_paramChildIndex == result.matched.paramChildIndex && arg_wildcardChildIndex == result.matched.wildcardChildIndex && same(arg_key, result.matched.key) && arg_route == nil
 //@   assert-at call newNodeFromRef#2 : merged-edges: arg_children == child.children && arg_childKeys == child.childKeys && arg_paramChildIndex == child.paramChildIndex && arg_wildcardChildIndex == child.wildcardChildIndex && arg_route == child.route
 //@   requires t != nil && cacheOK(t)
@@ -198,7 +198,7 @@ package fox
 //@   ensures size: result1 ==> t.size == old(t.size) - 1 && result0 != nil
 //@   ensures size-miss: !result1 ==> t.size == old(t.size) || t.size == old(t.size) - 1
 
-//@ func (*tXn).truncate props C03,C05,C02,C04 partial
+//@ func (*tXn).truncate props C03,C05,C02,C04,C15 partial
 //@   requires t != nil
 //@   modifies t.root, t.size
 //@   ensures all: len(methods) == 0 ==> t.size == 0 && fresh(t.root)
